@@ -158,3 +158,45 @@ func runStress(tracePath string, seed int64, nreq, workers int, ctxAware bool, s
 	}
 	sum.Rule = fmt.Sprintf("evaluations = HTTP requests served by a real rpc.Server from %d goroutines with a %v request timeout; distinct = distinct (request, response) pairs in which the timeout fired", workers, stressTimeout)
 }
+
+// f2Repro is a hook-free statistical reproduction of finding C49-F2 for triage: batches
+// [cancellation-aware call id 1, immediate call id 2] over HTTP with a few-ms timeout from many
+// goroutines; counts response bodies in which id 2 (or both) is missing.  No verdict is derived.
+func f2Repro(n int, sum *tl.Summary) {
+	meta := map[string]any{"szErr": float64(40), "szRet": float64(10), "szBig": float64(60), "szInv": float64(43)}
+	checkSizes(meta)
+	srv := rpc.NewServer()
+	srv.RegisterName("t", stressService{})
+	defer srv.Stop()
+	body := `[{"jsonrpc":"2.0","id":1,"method":"t_blk","params":[1]},{"jsonrpc":"2.0","id":2,"method":"t_ret"}]`
+	var mu sync.Mutex
+	lost, total := 0, 0
+	var sample string
+	var wg sync.WaitGroup
+	for g := 0; g < 32; g++ {
+		wg.Add(1)
+		go func() {
+			defer wg.Done()
+			for i := 0; i < n/32; i++ {
+				ctx := context.WithValue(context.Background(), http.ServerContextKey, &http.Server{WriteTimeout: 100*time.Millisecond + time.Duration(1+i%5)*time.Millisecond})
+				req := httptest.NewRequest("POST", "/", strings.NewReader(body)).WithContext(ctx)
+				req.Header.Set("content-type", "application/json")
+				w := httptest.NewRecorder()
+				srv.ServeHTTP(w, req)
+				out := w.Body.String()
+				mu.Lock()
+				total++
+				if !strings.Contains(out, `"id":2`) || !strings.Contains(out, `"id":1`) {
+					lost++
+					sample = out
+				}
+				mu.Unlock()
+			}
+		}()
+	}
+	wg.Wait()
+	sum.Evaluations = total
+	sum.Extra["responses_missing_a_call_id"] = lost
+	sum.Extra["sample_incomplete_response"] = sample
+	fmt.Printf("C49-F2 repro: %d of %d batch responses lack the response for id 1 or id 2; sample: %q\n", lost, total, sample)
+}
